@@ -82,3 +82,8 @@ Theorem src_ts_free_function same J1 J2 a b ls1 li1 ls2 li2 n :
   src_ts_time_delays a b = ts_time_delays a b /\
   src_ts_visibilities same J1 J2 a b ls1 li1 ls2 li2 n = setup_ts_visibilities same J1 J2 a b ls1 li1 ls2 li2 n.
 Proof. split; [apply src_ts_time_delays_eq|apply src_ts_visibilities_eq]. Qed.
+
+(* hom_time_delay (the delay of hom_visibility) as translated: idler transit time - signal transit time + (idler waist position -
+   signal waist position)/c; it is the signal-idler channel delay of the source against itself *)
+Theorem src_hom_time_delay_eq a : src_hom_time_delay a = hom_time_delay a /\ hom_time_delay a = snd (ts_time_delays a a).
+Proof. split; reflexivity. Qed.
